@@ -76,6 +76,12 @@ func init() {
 		}
 		panic(pathAbort{"unsupported: math.Float64bits of a computed symbolic float"})
 	}
+	externals["math.Float64frombits"] = func(fr *frame, a []value) value {
+		if x, ok := a[0].(uint64); ok {
+			return math.Float64frombits(x)
+		}
+		return fpSym(mkFP("(_ to_fp 11 53)", a[0].(*symv).t))
+	}
 	externals["math.Mod"] = func(fr *frame, a []value) value {
 		if isSym(a[0]) || isSym(a[1]) {
 			panic(pathAbort{"unsupported: math.Mod on a symbolic float"})
